@@ -150,6 +150,9 @@ static void run_scenario(const Scenario& sc, const string& child) {
   g_big_pipes = sc.delay[0] == 'F';  // F<ms>: as f<ms>, with 1 MiB pipes
   if (sc.delay[0] == 'F') g_first_wait_ms = atoi(sc.delay.c_str() + 1);
   string payload = sc.payload > 0 ? payload_bytes(sc.payload) : string();
+  // Z: descriptor 0 is free in the calling process, so one of the new pipe ends gets number 0 - the child must still
+  // see that pipe as its standard input
+  if (sc.delay[0] == 'Z') __real_close(0);
   int fds_before = count_fds();
   g_sys.clear();
   g_pipe_n = 0;
@@ -299,6 +302,10 @@ int main(int argc, char** argv) {
     all.push_back({"run_process", P{{"w2", 262145}, {"w1", 1000000}, {"x", 0}}, 10, true, 0, d});
     all.push_back({"communicate", P{{"w1", 400000}, {"w2", 100}, {"x", 0}}, 0, false, 0, d});
     all.push_back({"communicate", P{{"rall", 0}, {"w1", 700000}, {"x", 0}}, 200000, false, 0, d});
+  }
+  for (const char* api : {"run_process", "communicate"}) {
+    all.push_back({api, P{{"cat", 0}, {"rep", 0}, {"x", 0}}, 5000, false, 0, "Znone"});
+    all.push_back({api, P{{"rall", 0}, {"rep", 0}, {"w1", 3000}, {"x", 0}}, 70000, false, 0, "Znone"});
   }
   // timeouts: a child that outlives the deadline is ended
   all.push_back({"run_process", P{{"w1", 10}, {"s", 5000}, {"x", 0}}, -1, false, 300000, "none"});
